@@ -234,3 +234,48 @@ class NeedsGlobals(metaclass=StableHashMeta):
     hidden_part: Optional["HiddenPart"] = field(default=None, metadata={"type": "Element", "name": "hiddenPart"})  # noqa: F821
     hidden_parts: list["HiddenPart"] = field(default_factory=list, metadata={"type": "Element", "name": "hiddenParts"})  # noqa: F821
     hidden_label: Optional[str] = field(default=None, metadata={"type": "Attribute", "name": "hiddenLabel"})
+
+
+@dataclass
+class Collar(metaclass=StableHashMeta):
+    color: Optional[str] = field(default=None, metadata={"type": "Element"})
+
+
+@dataclass
+class Pet(metaclass=StableHashMeta):
+    class Meta:
+        name = "pet"
+        namespace = "urn:e"
+
+    name: Optional[str] = field(default=None, metadata={"type": "Element"})
+    collar: Optional[Collar] = field(default=None, metadata={"type": "Element"})
+
+
+@dataclass
+class HouseCat(Pet):
+    class Meta:
+        name = "houseCat"
+        namespace = "urn:e"
+
+    lives: Optional[int] = field(default=None, metadata={"type": "Element"})
+
+
+@dataclass
+class HouseDog(Pet):
+    class Meta:
+        name = "houseDog"
+        namespace = "urn:e"
+
+    bark: Optional[int] = field(default=None, metadata={"type": "Element"})
+
+
+@dataclass
+class Owner(metaclass=StableHashMeta):
+    """Objects below a union or base-typed field are decoded by candidate decoders with their own configuration."""
+
+    class Meta:
+        name = "owner"
+        namespace = "urn:e"
+
+    pet: Optional[Union[HouseCat, HouseDog]] = field(default=None, metadata={"type": "Element"})
+    others: list[Pet] = field(default_factory=list, metadata={"type": "Element", "name": "other"})
